@@ -84,7 +84,21 @@ pub fn build(
         return Ok(None);
     };
 
-    // TODO: verify that `ty` actually makes sense for an enum
+    // Only the integer types can be the representation of an enum.
+    let is_integer = match &ty {
+        Type::Raw(path) if path.len() == 1 => match path.last() {
+            Some(name) => matches!(
+                name.as_str(),
+                "u8" | "u16" | "u32" | "u64" | "u128" | "i8" | "i16" | "i32" | "i64" | "i128"
+            ),
+            None => false,
+        },
+        _ => false,
+    };
+    if !is_integer {
+        anyhow::bail!("the base type `{ty}` of enum `{resolvee_path}` is not an integer type");
+    }
+
     let Some(size) = ty.size(&semantic.type_registry) else {
         return Ok(None);
     };
